@@ -37,9 +37,7 @@ func runC19(c *Ctx) {
 		c.Unresolved("R1.gettype", "cert.GetType")
 		return
 	}
-	if tablesC19 != nil {
-		tablesC19(c)
-	}
+	tablesC19(c)
 	c.Saw(gt)
 	T := map[string]int64{}
 	for n, v := range constDecls(p, "Type") {
@@ -363,5 +361,3 @@ func storesInto(a *ssa.Alloc) []ssa.Value {
 	}
 	return out
 }
-
-var tablesC19 func(c *Ctx)
